@@ -359,6 +359,27 @@ def gaussLegendreReads (fv : List Rat) (rw : List (List Rat)) : List (Option Rat
 abbrev factorialMeaningful (n : Nat) : Prop := n ≤ 170
 def factorialGuard (n : Nat) : G := if n > 170 then stop else pass
 
+/-- the memo table of `Factorial` (`FactorialList`, static): the state is its size.  As coded the
+    guard `n > 170` comes first, whatever the table holds; an accepted call extends the table to `n+1` entries -/
+def factorialStep (size n : Nat) : Except Err Nat :=
+  if n > 170 then .error .diag else .ok (if n < size then size else n + 1)
+/-- a HISTORY of `Factorial` calls in one process, from a table of `size` entries -/
+def factorialHistGuard : Nat → List Nat → G
+  | _, [] => pass
+  | size, n :: ns =>
+    match factorialStep size n with
+    | .error _ => stop
+    | .ok size' => factorialHistGuard size' ns
+abbrev factorialHistMeaningful (ns : List Nat) : Prop := ∀ n ∈ ns, n ≤ 170
+
+/-- a sequence of guarded calls in ONE process: the first call that stops ends the process -/
+def seqGuard : List G → G
+  | [] => pass
+  | g :: gs =>
+    match g with
+    | .error _ => stop
+    | .ok _ => seqGuard gs
+
 abbrev binomialMeaningful (n k : Int) : Prop := 0 ≤ n ∧ 0 ≤ k
 def binomialGuard (n k : Int) : G := if k < 0 ∨ n < 0 then stop else pass
 
